@@ -202,12 +202,18 @@ func runMemConcurrent(c *MCase, db *memdb.DB, m *model.Map) (int64, error) {
 	}
 	stop := make(chan struct{})
 	var wg sync.WaitGroup
+	// every value the writer ever stores is registered before the Put, so a reader can demand
+	// exact membership: a pair assembled from the offset of one version and the length of
+	// another is not a stored pair
+	var everMu sync.Mutex
+	ever := map[string]map[string]bool{}
 	valOK := func(k, v []byte) bool {
 		if want, ok := m.Get(k); ok && bytes.Equal(want, v) {
 			return true
 		}
-		// writer values: key + "#" + counter
-		return bytes.HasPrefix(v, append(append([]byte{}, k...), '#'))
+		everMu.Lock()
+		defer everMu.Unlock()
+		return ever[string(k)][string(v)]
 	}
 	for r := 0; r < c.Readers; r++ {
 		wg.Add(1)
@@ -301,8 +307,8 @@ func runMemConcurrent(c *MCase, db *memdb.DB, m *model.Map) (int64, error) {
 	// the writer
 	for i := 0; i < c.WPuts; i++ {
 		var k []byte
-		if i%5 == 4 && i > 0 {
-			k = []byte(fmt.Sprintf("w%05d", (i*7)%i)) // overwrite an own earlier key
+		if i%2 == 1 && i > 0 {
+			k = []byte(fmt.Sprintf("w%05d", (i*7)%minInt(i, 24))) // overwrite an own earlier key (a small hot set)
 		} else {
 			k = []byte(fmt.Sprintf("w%05d", i))
 		}
@@ -311,8 +317,14 @@ func runMemConcurrent(c *MCase, db *memdb.DB, m *model.Map) (int64, error) {
 		}
 		v := append(append([]byte{}, k...), []byte(fmt.Sprintf("#%d", i))...)
 		if i%2 == 0 {
-			v = append(v, bytes.Repeat([]byte{'.'}, (i*13)%40)...) // varying lengths: overwrites may be shorter or longer
+			v = append(v, bytes.Repeat([]byte{'.'}, (i*13)%400)...) // varying lengths: overwrites may be shorter or longer
 		}
+		everMu.Lock()
+		if ever[string(k)] == nil {
+			ever[string(k)] = map[string]bool{}
+		}
+		ever[string(k)][string(v)] = true
+		everMu.Unlock()
 		if err := db.Put(k, v); err != nil {
 			fail("writer: Put: %v", err)
 			break
